@@ -7,7 +7,7 @@ from . import common as C
 PROTOS = ["http", "twirp", "grpc", "grpcweb", "grpcwebtext"]
 FORMULAS = {
     "C05": ["StatusFidelity", "Crash:status"],
-    "C06": ["RecvSeq", "ReplySeq", "SendResult", "Invoked"],
+    "C06": ["RecvSeq", "ReplySeq", "SendResult", "Invoked", "FinalStatus"],
     "C08": ["NeverOverLimit", "RecvSeq:limits", "SendResult:limits", "ReplySeq:limits", "StatusFidelity:limits", "Invoked:limits"],
     "C14": ["MetadataOutHeader", "MetadataOutTrailer", "HeaderPhase", "ReservedUnforgeable", "MetadataIn", "StatusFidelity:forge"],
     "C18": ["InterceptOnce", "StatsWellFormed", "OptionsTransparent", "Crash:opts"],
@@ -156,7 +156,18 @@ def fam_stream(rnd, tier):
                     c["script"] = [act("send", size=rnd.choice([0, 1, 50])) for _ in range(nrep)] + [act("ret", code=0)]
                     out.append(c)
     rnd.shuffle(out)
-    return out[: (4000 if tier == "quick" else 60000)]
+    out = out[: (4000 if tier == "quick" else 60000)]
+    # a stream whose first message is too large, with the limit exactly on a record boundary inside it (plain and
+    # compressed): the handler gets an error, never the part of the message that fits
+    for proto in ["http", "grpc", "grpcweb", "grpcwebtext"]:
+        for comp in ["", "gzip"]:
+            for over in [1, 2, 8]:
+                for shape in ["cstream", "bidi"]:
+                    c = base(proto, shape, codec="proto", comp=comp, tag="stream", boundary=over + 1)
+                    c["sizes"] = [0, 3]
+                    c["script"] = [act("recv"), act("ret", code=0)]
+                    out.append(c)
+    return out
 
 
 def fam_limits(rnd, tier):
@@ -563,7 +574,7 @@ def run(prop, tier, replay=None):
                 v["observed"] = dict(c=dict(tag="proxy", proto=key[1], shape=o["s"]["shape"], codec="proto", comp=""), cl=dict(http=200, status=dict(present=False), msgs=[]),
                                      h=dict(recv=[]), crash=v["what"], proxy=o)
                 v["signature"].update(code=o["s"]["code"], proto=key[1], codec="proto", comp="", truncated=False, stats=False)
-                viol[("StatusFidelity", "proxy-" + key[1], key[2], "proto", "", "in-range", False, key[3])] = v
+                viol[("StatusFidelity", "proxy-" + key[1], key[2], "proto", "", "in-range", key[4], key[3])] = v
         ustat = collections.Counter()
         if prop in ("C06", "C08", "C18") and (not replay or replay_ups):
             # HttpBody chunk framing: uploads of every length around multiples of the chunk size, through Recv(),
